@@ -182,6 +182,14 @@ def gen(t, tier):
         # the same pool object is used for a second call (after the first one returned or raised)
         m = t.randint(2, 5)
         sc['second'] = [{'yields': t.randint(0, 3), 'fail': bool(t.chance(0.15)), 'none': bool(t.chance(0.15))} for _ in range(m)]
+        if sc['result_objects'] and t.chance(0.6):
+            # the first call is consumed the way mapproxy's call sites do it: stop at the first failing result, shut the pool
+            # down and re-raise - the suspended result iterator then lives in a reference cycle (exception <-> frame) until
+            # the garbage collector runs, which it does at seeded scheduling points during the second call
+            sc['abandon'] = True
+            sc['gc_at'] = sorted(set(t.choice(150) for _ in range(t.randint(1, 3))))
+            if not any(i['fail'] for i in sc['items']) and sc['items']:
+                sc['items'][t.choice(len(sc['items']))]['fail'] = True
     return sc
 
 
@@ -282,10 +290,37 @@ def run(sc, tape):
             return st['values'][i]
         return w_
 
+    def _consume_like_a_call_site(pool, it, got):
+        # cf. mapproxy/service/wms.py and mapproxy/cache/tile.py: `if result.exception: pool.shutdown(True); reraise(...)`
+        try:
+            for result in it:
+                if result.exception:
+                    pool.shutdown(True)
+                    raise result.exception[1].with_traceback(result.exception[2])
+                got.append(result)
+        except ItemError as ex:
+            info = sys.exc_info()       # noqa: F841 - frame -> info -> traceback -> frame: only the cyclic GC frees `it`
+            # (the harness keeps the exception objects for identity checks: they must not keep the frames alive)
+            ex.__traceback__ = None
+            return True
+        return False
+
+    gc_at = set(sc.get('gc_at') or ())
+
+    def on_yield(task, kind, key):
+        if sched.steps in gc_at and len(outs) >= 1:
+            import gc
+            gc.collect()
+            probes_gc[0] += 1
+    probes_gc = [0]
+    if gc_at:
+        sched.on_yield = on_yield
+
     def caller():
         for r in range(len(rounds)):
             setup_round(r)
             st = dict(state)
+            st['second_round'] = r > 0
             one_call(st, make_work(st))
             outs.append(st)
 
@@ -315,8 +350,12 @@ def run(sc, tape):
                 it = async_.starmap(work, [(i, 'x') for i in range(n)])
             else:
                 it = async_.starcall([(work, i, 'x') for i in range(n)])
-            for r in it:
-                got.append(r)
+            if sc.get('abandon') and not out.get('second_round'):
+                out['abandoned'] = _consume_like_a_call_site(pool, it, got)
+            else:
+                for r in it:
+                    got.append(r)
+            it = None
         except ItemError as ex:
             raised = ex
         except Exception as ex:
@@ -356,6 +395,13 @@ def run(sc, tape):
             ex = out['caller_exc']
             v = {'sig': 'C15:unexpected-exception:%s:%s' % (type(ex).__name__, rname),
                  'msg': 'the call raised %r (not an exception of any item)' % (ex,)}
+        elif out.get('abandoned'):
+            # consumed up to the first failing result only: what was handed out must be the in-order prefix
+            first_fail = min(i for i in range(n) if items[i]['fail'])
+            got = out['got']
+            if len(got) != first_fail or any(g.exception is not None or g.result != out['values'][i] for i, g in enumerate(got)):
+                v = {'sig': 'C15:wrong-prefix:%s' % rname, 'msg': 'the call site received %r before the failing item %d' % (
+                    [_short(g) for g in got], first_fail)}
         else:
             v, u = _oracle(sc, out, n, items, out['excs'], out['values'], out['executed'], rname)
             unspecified += u
@@ -375,6 +421,10 @@ def run(sc, tape):
         probes['perm_' + ''.join(map(str, finish_order))] = 1 if n == 6 else 0
     if len(rounds) > 1:
         probes['pool_used_twice'] = 1
+    if probes_gc[0]:
+        probes['gc_runs_during_second_call'] = probes_gc[0]
+    if outs and outs[0].get('abandoned'):
+        probes['first_call_abandoned_at_failing_result'] = 1
     nontrivial = len(threads_used) >= 2 and (reordered or any(i['fail'] for i in first['items']))
     return {'violation': v, 'digest': C.digest_of(sc['api'], sc['pool'], sc['result_objects'], rounds, sched.log),
             'nontrivial': nontrivial, 'steps': sched.steps, 'sim_time': 0.0, 'faults': {},
